@@ -1233,6 +1233,193 @@ impl Exec {
                 };
                 Self::with_r(op, r)
             }
+            // C16: the tables of this write transaction are opened and used from several threads at once, while another
+            // thread creates and drops ephemeral savepoints.  Every call is stamped with a global sequence number at its
+            // start and at its end; the events are returned in an order that is a linearization if one exists (see below)
+            "par" => {
+                use std::sync::atomic::{AtomicU64, Ordering};
+                let txn = self.txn();
+                let cx = &self.cx;
+                let seq = AtomicU64::new(1);
+                let streams = op["streams"].as_array().unwrap().clone();
+                let sp_names: Vec<String> = op["sp"]["names"].as_array().map(|a| a.iter().map(|x| x.as_str().unwrap().to_string()).collect()).unwrap_or_default();
+                let sp_drop: Vec<bool> = op["sp"]["drop"].as_array().map(|a| a.iter().map(|x| x.as_bool().unwrap()).collect()).unwrap_or_default();
+                let barrier = std::sync::Barrier::new(streams.len() + 1);
+                type Stamped = (u64, u64, J);
+                // forced schedules through the pause points of redb (cfg(redb_verif)):
+                //   hold = "sp":   the savepoint call is stopped after its dirty check; the workers open their tables meanwhile
+                //   hold = "open": the first worker is stopped inside set_dirty; the savepoint thread calls meanwhile
+                let hold = op.get("hold").and_then(|h| h.as_str()).unwrap_or("").to_string();
+                let ctl = if hold.is_empty() { None } else { Some(crate::sched::Controller::install()) };
+                let go = std::sync::atomic::AtomicBool::new(hold.is_empty());
+                let progress = AtomicU64::new(0); // opens finished (hold = sp) / savepoint calls finished (hold = open)
+                const P_SP: &str = "ephemeral_savepoint.checked";
+                const P_OPEN: &str = "set_dirty.after_store";
+                if let Some(c) = &ctl {
+                    if hold == "sp" { c.arm("SP", P_SP) } else { c.arm("W0", P_OPEN) }
+                }
+                let mut held = false;
+                let (mut all, made): (Vec<Stamped>, Vec<(String, Savepoint)>) = std::thread::scope(|sc| {
+                    let mut hs = vec![];
+                    for (wi, st) in streams.iter().enumerate() {
+                        let (seq, barrier, go, progress, hold) = (&seq, &barrier, &go, &progress, hold.as_str());
+                        hs.push(sc.spawn(move || {
+                            crate::sched::set_actor(&format!("W{wi}"));
+                            let mut out: Vec<Stamped> = vec![];
+                            let n = st["n"].as_str().unwrap();
+                            let (kind, kt, vt) = (st["kind"].as_str().unwrap(), st["kt"].as_str().unwrap(), st["vt"].as_str().unwrap());
+                            barrier.wait();
+                            for _ in 0..st["delay"].as_u64().unwrap_or(0) {
+                                std::hint::spin_loop();
+                            }
+                            while !(go.load(Ordering::SeqCst) || (hold == "open" && wi == 0)) {
+                                std::thread::yield_now();
+                            }
+                            let a = seq.fetch_add(1, Ordering::SeqCst);
+                            let opened = catch_unwind(AssertUnwindSafe(|| {
+                                if kind == "t" { dispatch_t!(kt, vt, open_w(txn, n, kt, vt)) } else { dispatch_m!(kt, vt, open_wm(txn, n, kt, vt)) }
+                            }));
+                            let b = seq.fetch_add(1, Ordering::SeqCst);
+                            if hold == "sp" {
+                                progress.fetch_add(1, Ordering::SeqCst);
+                            }
+                            let oev = |r: J| json!({"e": "open", "n": n, "kind": kind, "kt": kt, "vt": vt, "r": r});
+                            let mut h = match opened {
+                                Ok(Ok(h)) => {
+                                    out.push((a, b, oev(ok(json!(0)))));
+                                    h
+                                }
+                                Ok(Err(e)) => {
+                                    out.push((a, b, oev(er(e))));
+                                    return out;
+                                }
+                                Err(_) => {
+                                    out.push((a, b, oev(json!({"panic": "open"}))));
+                                    return out;
+                                }
+                            };
+                            for o in st["ops"].as_array().unwrap() {
+                                let a = seq.fetch_add(1, Ordering::SeqCst);
+                                let r = catch_unwind(AssertUnwindSafe(|| h.op(cx, o)));
+                                let b = seq.fetch_add(1, Ordering::SeqCst);
+                                let mut ev = o.clone();
+                                match r {
+                                    Ok(r) => {
+                                        ev["r"] = r;
+                                        out.push((a, b, ev));
+                                    }
+                                    Err(p) => {
+                                        let msg = p.downcast_ref::<String>().cloned().or_else(|| p.downcast_ref::<&str>().map(|s| s.to_string())).unwrap_or_default();
+                                        ev["r"] = json!({"panic": msg});
+                                        out.push((a, b, ev));
+                                        break;
+                                    }
+                                }
+                            }
+                            let a = seq.fetch_add(1, Ordering::SeqCst);
+                            drop(h);
+                            let b = seq.fetch_add(1, Ordering::SeqCst);
+                            out.push((a, b, json!({"e": "close", "n": n})));
+                            out
+                        }));
+                    }
+                    // the coordinator of a forced schedule
+                    let coord = ctl.as_ref().map(|c| {
+                        let (c, go, progress, hold, n) = (c.clone(), &go, &progress, hold.as_str(), streams.len() as u64);
+                        sc.spawn(move || {
+                            let (actor, point, target) = if hold == "sp" { ("SP", P_SP, n) } else { ("W0", P_OPEN, 1) };
+                            let reached = c.wait_reached(actor, point, std::time::Duration::from_secs(2));
+                            go.store(true, Ordering::SeqCst);
+                            let t0 = std::time::Instant::now();
+                            while progress.load(Ordering::SeqCst) < target && t0.elapsed() < std::time::Duration::from_millis(100) {
+                                std::thread::sleep(std::time::Duration::from_millis(1));
+                            }
+                            c.release(actor, point);
+                            reached
+                        })
+                    });
+                    // the savepoint thread (this one)
+                    crate::sched::set_actor("SP");
+                    let mut out: Vec<Stamped> = vec![];
+                    let mut made: Vec<(String, Savepoint)> = vec![];
+                    barrier.wait();
+                    while hold == "open" && !go.load(Ordering::SeqCst) {
+                        std::thread::yield_now();
+                    }
+                    for (i, name) in sp_names.iter().enumerate() {
+                        for _ in 0..op["sp"]["gap"].as_u64().unwrap_or(0) {
+                            std::hint::spin_loop();
+                        }
+                        let a = seq.fetch_add(1, Ordering::SeqCst);
+                        let r = txn.ephemeral_savepoint();
+                        let b = seq.fetch_add(1, Ordering::SeqCst);
+                        if hold == "open" {
+                            progress.fetch_add(1, Ordering::SeqCst);
+                        }
+                        match r {
+                            Ok(sp) => {
+                                out.push((a, b, json!({"e": "spe", "s": name, "r": ok(json!(0))})));
+                                if sp_drop.get(i).copied().unwrap_or(false) {
+                                    let a = seq.fetch_add(1, Ordering::SeqCst);
+                                    drop(sp);
+                                    let b = seq.fetch_add(1, Ordering::SeqCst);
+                                    out.push((a, b, json!({"e": "spdrop", "s": name})));
+                                } else {
+                                    made.push((name.clone(), sp));
+                                }
+                            }
+                            Err(e) => out.push((a, b, json!({"e": "spe", "s": name, "r": er(e)}))),
+                        }
+                    }
+                    if hold == "sp" && sp_names.is_empty() {
+                        go.store(true, Ordering::SeqCst);
+                    }
+                    for h in hs {
+                        out.extend(h.join().expect("HARNESS: worker thread died outside the code under test"));
+                    }
+                    if let Some(c) = coord {
+                        held = c.join().unwrap();
+                    }
+                    crate::sched::set_actor("main");
+                    (out, made)
+                });
+                if ctl.is_some() {
+                    crate::sched::Controller::uninstall();
+                }
+                for (name, sp) in made {
+                    self.sps.insert(name, sp);
+                }
+                // Linearization.  Only the moment D at which the transaction turns dirty (inside the first open) orders
+                // things across threads: a savepoint call succeeds iff it is linearized before D.  D lies in the interval of
+                // the open that is linearized first, and not after the end of any open.  If
+                //   max(start of successful savepoint calls) < D < min(end of refused ones)   is satisfiable,
+                // the order [successful savepoints, that open, everything else by end stamp] is a linearization;
+                // otherwise everything is emitted by end stamp and the specification rejects the first call that is wrong.
+                let is_open = |e: &Stamped| e.2["e"] == "open" && e.2["r"].get("ok").is_some();
+                let spe_ok = |e: &Stamped| e.2["e"] == "spe" && e.2["r"].get("ok").is_some();
+                let spe_no = |e: &Stamped| e.2["e"] == "spe" && e.2["r"].get("ok").is_none();
+                let first_open = all.iter().filter(|e| is_open(e)).min_by_key(|e| e.0).cloned();
+                let lo = all.iter().filter(|e| spe_ok(e)).map(|e| e.0).max().unwrap_or(0);
+                let hi = all.iter().filter(|e| spe_no(e)).map(|e| e.1).min().unwrap_or(u64::MAX);
+                let feasible = match &first_open {
+                    Some(fo) => {
+                        let min_end = all.iter().filter(|e| is_open(e)).map(|e| e.1).min().unwrap();
+                        lo.max(fo.0) < hi.min(min_end)
+                    }
+                    None => true,
+                };
+                all.sort_by_key(|e| e.1);
+                let mut evs: Vec<J> = vec![json!({"e": "note", "what": "par", "threads": streams.len() + 1, "feasible": feasible, "hold": hold, "held": held})];
+                if feasible {
+                    let fo_key = first_open.as_ref().map(|e| e.0);
+                    evs.extend(all.iter().filter(|e| spe_ok(e)).map(|e| e.2.clone()));
+                    evs.extend(all.iter().filter(|e| is_open(e) && Some(e.0) == fo_key).map(|e| e.2.clone()));
+                    evs.extend(all.iter().filter(|e| !spe_ok(e) && !(is_open(e) && Some(e.0) == fo_key)).map(|e| e.2.clone()));
+                } else {
+                    evs.extend(all.iter().map(|e| e.2.clone()));
+                }
+                evs
+            }
             "spdrop" => {
                 self.sps.remove(op["s"].as_str().unwrap()).expect("HARNESS: unknown savepoint");
                 vec![op.clone()]
